@@ -1,3 +1,7 @@
+import SlipVerif.Model.Json
+import SlipVerif.Model.JsonLisp
+import SlipVerif.Model.JsonText
 import SlipVerif.Model.Num
+import SlipVerif.Driver.Json
 import SlipVerif.Driver.Num
 import SlipVerif.Driver.Util
